@@ -70,6 +70,8 @@ def fam_normalize(chk, impl, tier):
     for _ in range(6000 if tier == "thorough" else 1500):
         n = rng.choice([0, 1, 2, 3, 5, 8, 13, 40])
         inputs.append((rand_slice(rng, n), n))
+    # corpus: repaired finding F8 must stay repaired
+    inputs = [(slice(-7, None, -1), 5), (slice(-4, 0, -2), 2), (slice(-41, 3, -3), 40)] + inputs
     cases = []
     for s, n in inputs:
         out = impl.normalize_slice(s, n)
@@ -325,6 +327,9 @@ def fam_slice1d(chk, impl, tier):
                 for s in all_slices(n, 2):
                     inputs.append((n, cs, impl.normalize_slice(s, n)))
         inputs = list({(n, cs, sl_repr(s)): (n, cs, s) for n, cs, s in inputs}.values())
+    # corpus: repaired finding F12 (negative step starting right after a zero-length chunk) must stay repaired
+    inputs = [(2, (1, 0, 1), slice(None, None, -1)), (4, (2, 0, 2), slice(2, None, -1)), (5, (3, 0, 2), slice(3, None, -2)),
+              (7, (4, 0, 3), slice(4, 1, -1)), (6, (3, 0, 0, 3), slice(3, None, -1))] + inputs
     for _ in range(15000 if tier == "thorough" else 2000):
         n = rng.choice([1, 2, 3, 5, 8, 13, 24, 40])
         cs = rand_chunks(rng, n, allow_zero=True)
